@@ -5,11 +5,14 @@ MODEL_SHOW = "run_items"
 DISAGREE_IS_VIOLATION = False  # the exact publication sequence (e.g. a repeated identical state) is not fixed by the property; pure model disagreements are reported as such
 RULE = ("exhaustive: one retirable service after query+retire, every sequence of length <= 4 (quick) / 6 (thorough) over "
         "{retire, retired(1), exit, stop-done, retired(unknown)}; two services (second supporting retirement or not), every "
-        "sequence of length <= 3 / 5 over {query-all, retire, retired(1), retired(2), exit, stop-done}; each followed by web_nodes. "
+        "sequence of length <= 3 / 5 over {query-all, retire, retired(1), retired(2), exit, stop-done}; resolvability changing under the "
+        "controller: one service, every sequence of length <= 3 / 5 over {hide(1), show(1), query-all, retire, retired(1), exit}, and two "
+        "services after query-all, every sequence of length <= 3 / 5 over {hide(2), show(2), retire, retired(1), retired(2), exit}; each followed by web_nodes. "
         "random: 0-4 hosted services with mixed dispositions (ok / no / no listener / error / absent, sometimes listed twice), "
         "life-cycle stories with noise, repetitions and premature commands, and uniformly random histories of 1-60 operations over "
         "stat/retire/exit/web_*/unknown commands, query-all/query-one, retired notifications (known, unknown, repeated, via the real "
-        "NotifyServiceRetired), other service commands and stop-done(true/false). Non-trivial = the node published at least one "
+        "NotifyServiceRetired), other service commands, stop-done(true/false) and hide/show of a service (GetService answers nil while hidden) placed around "
+        "queries, retire, notifications and exit (shown again at once, much later, or never; retire re-issued afterwards). Non-trivial = the node published at least one "
         "state or called StopNode; distinct = distinct item sequences.")
 TRUSTED_BASE = [
     "Coq 8.16.1 kernel + vm_compute (case evaluation, Examples); no native_compute",
@@ -19,12 +22,12 @@ TRUSTED_BASE = [
 ]
 ASSUMPTIONS = [
     "NodeCtrl is only touched from the admin service's goroutine: commands, query acks, service notifications and the StopNode completion are processed one at a time (the harness delivers the StopNode completion in the admin context; app.App.StopNode calls it from the application's run service)",
-    "the set of hosted services is fixed at NodeCtrl.Start (makeServices); a service's answer to queryretire does not change over time",
+    "the set of hosted services is fixed at NodeCtrl.Start (makeServices); a service's answer to queryretire does not change over time; whether INodeApp.GetService resolves it MAY change at any time (OHide/OShow), the service itself keeps running",
     "service names are arbitrary distinct strings (tokens in the model); a name listed twice in the node configuration denotes one service",
 ]
 TECHNIQUE = ("Coq proof (state machine of the repaired NodeCtrl; invariant tying its fields to history functions `declared`/`reported` and to the "
              "published-state trace, by induction over operations) + differential correspondence against the real NodeCtrl driven through its admin actor")
-LEVEL_TEXT = ("Machine-checked Coq theorems over all configurations and all operation histories: retire guard (iff), every hosted service told, "
+LEVEL_TEXT = ("Machine-checked Coq theorems over all configurations and all operation histories: retire guard (iff), every hosted service resolvable at that moment told (and only those), a service that did not itself report retired never counted as retired, "
               "retired only after / as soon as all services reported, exit guard (iff), StopNode at most once and exactly once per accepted exit, "
               "published states monotone, refused commands are no-ops, and the executable monitor accepts every model trace. The model is tied to the "
               "Go code by running both on the same histories each run; the monitor (the theorems' statements) is also evaluated on the implementation's own traces.")
